@@ -93,7 +93,7 @@ def reg(pid, level, rules, explanation):
 
 reg("C01", "other",
     [T.t_bij, P.t_prop3, L.l_eq, B.l_cover, P.l_propdec, D.h_dispatch3, T.t_varint_readers, PL.s_persist, PL.h_total,
-     B.t_bits, C.h_payfmt, L.t_ctl, P3.h_shortform, TR.l_trace, P3.t_prims, T.t_proto, P.h_bytevals, T.t_varint_writer, P.t_props_whole, P.t_props_encvalues, IO.s_collect],
+     B.t_bits, C.h_payfmt, L.t_ctl, P3.h_shortform, TR.l_trace, P3.t_prims, T.t_proto, P.h_bytevals, T.t_varint_writer, P.t_props_whole, P.t_props_encvalues, IO.s_collect, P3.l_entries, P3.h_reason_bytes],
     "NOT decided: equality of the decoded value with the original over the unbounded value space (a runtime quantity). Decided: structural necessary conditions of a round trip, each exact for what it compares: "
     "T-bij (every wire-code enum's `as u8` discriminant table and its from_u8 table, evaluated for all 256 bytes, are inverse "
     "bijections), T-prop3 (decode / encode / encode_len of every v5 property set handle the same ids wired to the same field), L-eq "
@@ -106,7 +106,9 @@ reg("C01", "other",
     "every body put the same kinds of wire items in the same order and a field is read at the position at which it is written; every "
     "integer wider than a byte, string, binary field and nested block outside list loops is written from a field as it is and stored as "
     "it was read -- not clamped, defaulted, normalised or derived; decoded lists and strings are not rearranged in place), T-props whole / "
-    "T-propid values (each property decoder stores, and each property encoder writes, the value as it is).")
+    "T-propid values (each property decoder stores, and each property encoder writes, the value as it is), L-entries (list entries: every "
+    "SUBACK / UNSUBACK code byte decodes to the variant its table names and every variant is written as its code; filters are stored and "
+    "written as they are), H-raise reason bytes (every accepted reason byte of every v5 decoder yields the variant its table names).")
 
 reg("C02", "other",
     [L.l_eq, L.l_hdr, L.l_fixed, L.s_dbg, PN.s_panic_encode, T.t_width, T.t_varint_writer, P3.t_prims, IO.h_async1, IO.s_writers],
@@ -134,7 +136,7 @@ reg("C03", "other",
 
 reg("C04", "other",
     [T.t_codes, T.t_hdr, P.t_props, P.t_props_whole, P.h_proplen, P.h_dup, P.h_bytevals, P.l_propdec, PL.h_exactfill, B.t_bits, B.h_checked_sub,
-     B.l_consume, C.h_ctor, C.h_utf8, T.t_varint_readers, P3.h_shortform, P3.t_prims, C.h_accessors, T.t_width, TR.l_trace, IO.s_collect, T.t_proto],
+     B.l_consume, C.h_ctor, C.h_utf8, T.t_varint_readers, P3.h_shortform, P3.t_prims, C.h_accessors, T.t_width, TR.l_trace, IO.s_collect, T.t_proto, P3.l_entries, P3.h_reason_bytes, D.h_dispatch3],
     "NOT decided: language equality between the strict decoder's accepted set and the MQTT grammar, nor the conjunction of the "
     "clauses below into it. Decided exactly against independent OASIS tables (spec_mqtt.py): header nibble/flag table for all 256 "
     "control bytes (T-hdr), accepted domain of every code table (T-codes), permitted property set per packet and its rejecting default "
@@ -147,17 +149,17 @@ reg("C04", "other",
     "(L-trace value clauses, T-props whole), and every entry read in a loop is stored unconditionally (S-collect). The library's deliberate leniencies are listed in DESIGN.md section 5.")
 
 reg("C05", "other",
-    [PL.h_borrow, PL.s_persist, PL.h_pending, PL.h_cap, PL.h_total, T.t_varint_readers],
+    [PL.h_borrow, PL.h_stateclone, PL.s_persist, PL.h_pending, PL.h_cap, PL.h_total, T.t_varint_readers],
     "NOT decided: equality of outcomes over all delivery schedules (a runtime quantity). Decided: the structural discipline that "
     "makes the outcome a function of (caller-held state, bytes delivered): the future holds only two &mut borrows, has no Drop "
-    "and its constructor only stores them (H-borrow); inside poll no local declared outside a loop is assigned inside it and every "
+    "and its constructor only stores them, and a copy of the caller-held state is the same state (H-borrow); inside poll no local declared outside a loop is assigned inside it and every "
     "place updated from the reader is a projection of the state (S-persist); the evaluated transfer functions of the header and body "
     "states (P-header, P-complete, P-body): Pending is returned exactly for the transport's Pending with the state unchanged, header "
     "bytes are read one at a time, the shift derives from the persisted index, body reads target buf[idx..] and advance idx by the "
     "bytes filled, success reports 1 + 1 + var_idx (+ remaining length).")
 
 reg("C06", "other",
-    [D.h_dispatch3, D.h_hdr1, D.h_block, PL.h_exactfill, T.t_varint_readers, IO.h_noswallow, IO.s_readers],
+    [D.h_dispatch3, D.h_hdr1, D.h_block, PL.h_exactfill, T.t_varint_readers, IO.h_noswallow, IO.s_readers, PL.h_stateclone, PL.h_borrow],
     "Decided exactly for the dispatch layer, the only place the three front-ends differ: per packet type the async decoder, "
     "block_decode and build_empty_packet, evaluated on an abstract header, run the same body decoder with the same arguments or build "
     "the same value (H-dispatch3); all obtain the header through the same Header::new_with and decode_raw_header raises nothing of its "
@@ -169,7 +171,7 @@ reg("C06", "other",
     "encode side only).")
 
 reg("C07", "other",
-    [IO.s_readers, IO.s_ioerr, IO.t_eof, IO.h_noswallow, D.h_block, B.l_consume, PL.h_pending, PL.h_total, P3.t_prims, P.l_propdec, P3.h_shortform, IO.s_collect],
+    [IO.s_readers, IO.s_ioerr, IO.t_eof, IO.h_noswallow, D.h_block, B.l_consume, PL.h_pending, PL.h_total, P3.t_prims, P.l_propdec, P3.h_shortform, IO.s_collect, PL.h_borrow],
     "Decided per site: every transport call is read_exact (operand read completely before use) or poll_read in poll "
     "(S-readers); every io::Result is propagated by `?` or a kind-preserving map_err (S-ioerr); is_eof <=> IoError(UnexpectedEof) "
     "for both error types and zero-length reads produce exactly that (T-eof, P-header/P-body); no map_err closure relabels an I/O "
@@ -183,7 +185,7 @@ reg("C07", "other",
 
 reg("C08", "other",
     [PL.h_total, PL.h_cap, B.l_consume, P.l_propdec, P.h_proplen, T.t_width, T.t_varint_readers, PL.s_persist, P3.h_shortform,
-     C.h_utf8, IO.s_readers, P3.t_prims, T.t_varint_writer, T.t_bij],
+     C.h_utf8, IO.s_readers, P3.t_prims, T.t_varint_writer, T.t_bij, PL.h_stateclone, PL.h_borrow],
     "NOT decided: equality of a decoded sequence with a generated one over all histories. Decided: the per-packet consumption "
     "invariant from which framing follows by induction: the poll decoder reads 1 + (1 + var_idx) header bytes and exactly "
     "remaining_len body bytes and reports their sum (P-header, P-complete, P-body, S-persist); every accounting body decoder consumes "
@@ -204,7 +206,7 @@ reg("C09", "other",
     "encode closure reads no static/thread-local/interior-mutable state and calls nothing environment dependent (S-pure).")
 
 reg("C10", "other",
-    [T.t_rc, L.t_ctl, P.t_propid, P.t_props_encvalues, B.t_bits, T.t_varint_writer, T.t_proto, L.l_hdr, L.l_eq, P.t_prop3, TR.l_trace, P3.t_prims, IO.h_async1, IO.s_writers],
+    [T.t_rc, L.t_ctl, P.t_propid, P.t_props_encvalues, P3.l_entries, B.t_bits, T.t_varint_writer, T.t_proto, L.l_hdr, L.l_eq, P.t_prop3, TR.l_trace, P3.t_prims, IO.h_async1, IO.s_writers],
     "Static analysis cannot run an independent decoder; decided instead: every constant the encoder puts on the wire equals the "
     "independently typed OASIS tables (spec_mqtt.py): control bytes incl. PUBLISH flag bits for all 12 flag combinations (T-ctl), all "
     "138 wire-code enum discriminants (T-rc), property ids, their wire types and the id-then-value order, length prefix = sum of "
@@ -215,7 +217,7 @@ reg("C10", "other",
 
 reg("C11", "other",
     [L.l_eq, B.l_cover, T.t_bij, PN.s_panic_encode, T.t_width, C.h_ctor, P.l_propdec, P.h_proplen, B.t_bits, L.t_ctl, P3.h_shortform,
-     TR.l_trace, P3.t_prims, T.t_proto, P.t_prop3, P.h_bytevals, IO.h_async1, IO.s_writers, T.t_varint_writer, D.h_hdr1, D.h_dispatch3, P.t_props_whole, P.t_props_encvalues, IO.s_collect],
+     TR.l_trace, P3.t_prims, T.t_proto, P.t_prop3, P.h_bytevals, IO.h_async1, IO.s_writers, T.t_varint_writer, D.h_hdr1, D.h_dispatch3, P.t_props_whole, P.t_props_encvalues, IO.s_collect, P3.l_entries, P3.h_reason_bytes],
     "NOT decided: the runtime round trip over accepted byte strings. Decided (necessary): the encoder is length-exact on every "
     "value a decoder can construct, not only canonical ones (L-eq quantifies over all atom assignments); every length-bearing "
     "field is written whenever present, depending only on itself (L-cover); every enum value a from_u8 table returns is written "
@@ -225,7 +227,7 @@ reg("C11", "other",
     "accept, since all obtain the header through the same Header::new_with and run the same body decoders (H-hdr1, H-dispatch3).")
 
 reg("C12", "proof",
-    [C.h_priv, C.h_ctor, C.h_utf8, C.h_payfmt, C.h_accessors, T.t_width, T.t_flen],
+    [C.h_priv, C.h_ctor, C.h_utf8, C.h_payfmt, C.h_accessors, T.t_width, T.t_flen, PN.s_panic_validator],
     "All obligations exact: private fields and no way around the validating constructors (H-priv); Pid/TopicName/TopicFilter/"
     "VarByteInt are constructed only inside their constructors, which evaluated on abstract inputs reject exactly the invalid values "
     "and store their argument (H-ctor); read_string validates the very buffer it turns into a String and no other unchecked/lossy "
@@ -236,7 +238,7 @@ reg("C12", "proof",
     "'/' is C16 territory and not decided.")
 
 reg("C13", "proof",
-    [T.t_proto, C.s_gate, C.h_protoread, T.t_hdr, D.h_block, D.h_dispatch3, PL.h_exactfill],
+    [T.t_proto, C.s_gate, C.h_protoread, T.t_hdr, D.h_block, D.h_dispatch3, PL.h_exactfill, P3.h_erreq],
     "All obligations exact: Protocol::new matches its raw arguments against exactly (MQIsdp,3) (MQTT,4) (MQTT,5), the default arm "
     "only returns InvalidProtocol(name, level) / InvalidString, to_pair is the inverse (T-proto); Protocol::decode_async reads "
     "exactly name then level (H-protoread); both decode_with_protocol start with the version gate returning "
@@ -244,10 +246,11 @@ reg("C13", "proof",
     "Protocol::decode_async then decode_with_protocol with nothing in between (H-compose); the packet front-ends hand the caller's reader "
     "to Connect::decode_async without reading any body byte first (H-dispatch3) and the blocking front-end is the async one with only end of "
     "input mapped to Ok(None), so the refusal is reported as soon as the level byte is there (H-block); the poll front-end returns the body "
-    "decoder's error unchanged and leaves the refused frame in the caller-held state, where the other family's entry point can go on (P-body).")
+    "decoder's error unchanged and leaves the refused frame in the caller-held state, where the other family's entry point can go on (P-body); "
+    "error values compare by variant and payload, so UnexpectedProtocol(V310) is not UnexpectedProtocol(V500) (H-erreq).")
 
 reg("C14", "other",
-    [IO.s_ioerr, IO.s_readers, IO.s_writers, IO.h_fromio, IO.h_toio, IO.h_noswallow, IO.t_eof, IO.h_async1, PL.h_pending, PL.h_total],
+    [IO.s_ioerr, IO.s_readers, IO.s_writers, IO.h_fromio, IO.h_toio, IO.h_noswallow, IO.t_eof, IO.h_async1, PL.h_pending, PL.h_total, PL.h_borrow],
     "Decided per site over decode and encode closures (tokio/std adaptor semantics trusted): every io::Result from a transport or "
     "sink call is propagated through a kind-preserving conversion (S-ioerr); From<io::Error> keeps err.kind(), From<Error> for "
     "io::Error returns the carried kind and InvalidData otherwise, evaluated for every error variant (H-fromio, H-toio); no handler "
@@ -288,7 +291,7 @@ reg("C18", "proof",
     "the constructor accepts the string read -- no further condition on the value -- and a refusal becomes InvalidResponseTopic (H-topicvals).")
 
 reg("C20", "other",
-    [RA.h_raise, RA.h_order, P.t_props, P.t_props_whole, P.h_proplen, P.h_dup, P.h_bytevals, D.h_dispatch3, PL.h_exactfill, D.h_block,
+    [RA.h_raise, RA.h_order, P3.h_erreq, C.h_protoread, P.t_props, P.t_props_whole, P.h_proplen, P.h_dup, P.h_bytevals, D.h_dispatch3, PL.h_exactfill, D.h_block,
      IO.h_noswallow, T.t_codes, B.h_checked_sub, B.t_bits, C.h_utf8],
     "NOT decided: that a given byte-level malformation of a given packet reaches the site the catalogue names (path feasibility "
     "over inputs). Decided: every raise site carries the value its guard tested (H-raise payload rule), each documented variant is "
